@@ -382,3 +382,8 @@ mod tests {
         Ok(())
     }
 }
+
+#[cfg(rustradio_verif)]
+pub mod verif_access {
+    include!(concat!(env!("RUSTRADIO_VERIF_DIR"), "/access/il2p_deframer.rs"));
+}
